@@ -28,6 +28,9 @@ func c03Quote(s string) string { return "'" + strings.ReplaceAll(s, "'", "''") +
 type c03Seed struct {
 	name string
 	cat  *vCatalogue
+	// when non-empty, only positions whose path starts with this prefix are mutated (variants
+	// that differ from another seed only inside one mapping)
+	onlyPath string
 }
 
 // c03DerivedSeeds produces, for every mapping of a maximal seed, the reductions that keep the
@@ -36,7 +39,8 @@ func c03DerivedSeeds(r *vReport, cats []*vCatalogue) []*c03Seed {
 	var out []*c03Seed
 	skipped := 0
 	for _, c := range cats {
-		out = append(out, &c03Seed{c.Seed, c})
+		out = append(out, &c03Seed{name: c.Seed, cat: c})
+		out = append(out, c03Reorderings(c, &skipped)...)
 		for _, m := range c.Mappings {
 			var keyNames []string
 			for _, k := range m.Keys {
@@ -82,12 +86,97 @@ func c03DerivedSeeds(r *vReport, cats []*vCatalogue) []*c03Seed {
 						skipped++
 						continue
 					}
-					out = append(out, &c03Seed{name, dc})
+					out = append(out, &c03Seed{name: name, cat: dc})
 				}
 			}
 		}
 	}
 	r.Extra["sum_derived_seeds_not_clean_skipped"] = float64(skipped)
+	return out
+}
+
+// c03Reorderings produces, for every block mapping with at least two keys, the variants in which
+// the keys are written in another order (each key moved to the front, and the reversed order);
+// the order of keys in a mapping must not decide whether a value is checked. Only variants that
+// still lint clean are kept, and only the positions inside the reordered mapping are mutated.
+func c03Reorderings(c *vCatalogue, skipped *int) []*c03Seed {
+	var out []*c03Seed
+	for _, m := range c.Mappings {
+		n := len(m.Keys)
+		if n < 2 || m.Path == "" && false {
+			continue
+		}
+		// blocks of lines per key; flow mappings (keys sharing a line) are skipped
+		ok := true
+		for i := 1; i < n; i++ {
+			if m.Keys[i].Line <= m.Keys[i-1].EndLine {
+				ok = false
+			}
+		}
+		if !ok {
+			continue
+		}
+		first := m.Keys[0]
+		firstLine := c.Lines[first.Line-1]
+		seqItem := strings.Contains(firstLine[:first.Col-1], "-")
+		blocks := make([][]string, n)
+		for i, k := range m.Keys {
+			for l := k.Line; l <= k.EndLine; l++ {
+				blocks[i] = append(blocks[i], c.Lines[l-1])
+			}
+		}
+		prefix := firstLine[:first.Col-1] // e.g. "      - "
+		if seqItem {
+			blocks[0] = append([]string{strings.Repeat(" ", first.Col-1) + firstLine[first.Col-1:]}, blocks[0][1:]...)
+		}
+		var orders [][]int
+		for f := 1; f < n; f++ {
+			o := []int{f}
+			for i := 0; i < n; i++ {
+				if i != f {
+					o = append(o, i)
+				}
+			}
+			orders = append(orders, o)
+		}
+		if n > 2 {
+			rev := make([]int, n)
+			for i := range rev {
+				rev[i] = n - 1 - i
+			}
+			orders = append(orders, rev)
+		}
+		for oi, o := range orders {
+			var lines []string
+			lines = append(lines, c.Lines[:first.Line-1]...)
+			for bi, k := range o {
+				b := append([]string{}, blocks[k]...)
+				if bi == 0 && seqItem {
+					b[0] = prefix + b[0][first.Col-1:]
+				}
+				lines = append(lines, b...)
+			}
+			lines = append(lines, c.Lines[m.EndLine:]...)
+			src := strings.Join(lines, "\n")
+			res := vLint(src, nil)
+			if res.Panic != "" || res.Err != nil || len(res.Errs) > 0 {
+				*skipped++
+				continue
+			}
+			name := fmt.Sprintf("%s/%s<order %d:%s first>", c.Seed, m.Path, oi, m.Keys[o[0]].Value)
+			dc, err := vBuildCatalogue(name, src)
+			if err != nil {
+				*skipped++
+				continue
+			}
+			sd := &c03Seed{name: name, cat: dc, onlyPath: m.Path}
+			if m.Path == "" {
+				sd.onlyPath = ""
+				continue // top level: every position would be repeated; the job/step/section mappings are what matters
+			}
+			out = append(out, sd)
+		}
+	}
 	return out
 }
 
@@ -207,7 +296,7 @@ func TestVerifC03(t *testing.T) {
 	if vThorough() {
 		r.Bounds["simultaneous_mutations"] = 2
 	}
-	r.Extra["rule"] = "4 maximal seeds covering every key of the workflow syntax + every clean reduction of a mapping to its mandatory keys plus one pair of optional keys; every scalar value position (mapping values and sequence elements at any depth) x 4 malformed placeholders spliced as single-quoted scalars; thorough: also every pair of scalar positions inside one mapping mutated together. class = normalised schema path of the position; non-trivial = position where an expression syntax error is required"
+	r.Extra["rule"] = "4 maximal seeds covering every key of the workflow syntax + every clean reduction of a mapping to its mandatory keys plus one pair of optional keys + every mapping rewritten with each key moved to the front and in reversed order (positions inside that mapping); every scalar value position (mapping values and sequence elements at any depth) x 4 malformed placeholders spliced as single-quoted scalars; thorough: also every pair of scalar positions inside one mapping mutated together. class = normalised schema path of the position; non-trivial = position where an expression syntax error is required"
 	r.Extra["assumptions"] = []string{"positions are those reachable from the seeds (one occurrence of every key of appendix C); block-style mappings only"}
 
 	if raw := vReplayInput(); raw != nil {
@@ -248,6 +337,9 @@ func TestVerifC03(t *testing.T) {
 	pathsSeen := map[string]bool{}
 	for _, sd := range seeds {
 		for _, p := range sd.cat.Scalars {
+			if sd.onlyPath != "" && !(p.Path == sd.onlyPath || strings.HasPrefix(p.Path, sd.onlyPath+".") || strings.HasPrefix(p.Path, sd.onlyPath+"[")) {
+				continue
+			}
 			pathsSeen[p.NPath] = true
 			for pl := range c03Payloads {
 				idx++
@@ -271,7 +363,7 @@ func TestVerifC03(t *testing.T) {
 	}
 	// two simultaneous mutations among the scalar descendants of one mapping (maximal seeds only)
 	for _, c := range cats {
-		sd := &c03Seed{c.Seed, c}
+		sd := &c03Seed{name: c.Seed, cat: c}
 		for _, m := range c.Mappings {
 			var kids []*vPos
 			for _, s := range c.Scalars {
